@@ -71,6 +71,17 @@ Check(ev) ==
   \cup (IF ev.with_store # wantStore THEN {F("C16", "join with a storage (got, expected)", <<ev.with_store, wantStore>>)} ELSE {})
   \cup (IF ev.after_mut # wantMut THEN {F("C16", "after a mutable join (got, expected)", <<ev.after_mut, wantMut>>)} ELSE {})
   \cup (IF ev.value # wantValue THEN {F("C16", "consuming the change set (got, expected)", <<ev.value, wantValue>>)} ELSE {})
+  \* which values end where: the amount object of an entity is the one that arrived first (later ones are
+  \* merged into it and destroyed by the library); consuming the set hands back exactly the objects of the
+  \* entities it yielded, everything else is destroyed by the library
+  \cup (LET firstK(i) == CHOOSE k \in 1..Len(ev.pairs) : ev.pairs[k][1] = i /\ \A j \in 1..(k - 1) : ev.pairs[j][1] # i
+            wantRet == {firstK(want[j][1]) : j \in 1..n}
+            wantDes == (1..Len(ev.pairs)) \ wantRet
+            mine == 1..Len(ev.pairs)        \* (the ledger also holds the components of the storage joined with)
+        IN IF (SeqToSet(L.returned) \cap mine) # wantRet \/ (SeqToSet(L.destroyed) \cap mine) # wantDes
+           THEN {F("C16", "amount objects handed back / destroyed (returned, expected, destroyed, expected)", <<L.returned, wantRet, L.destroyed, wantDes>>),
+                 F("C08", "amount objects handed back / destroyed (returned, expected, destroyed, expected)", <<L.returned, wantRet, L.destroyed, wantDes>>)}
+           ELSE {})
   \cup (IF L.held # <<>> \/ L.anomalies # <<>>
         THEN {F("C16", "amount values leaked or dropped twice", <<L.held, L.anomalies>>),
               F("C08", "values added to a change set leaked or were destroyed twice (held, anomalies)", <<L.held, L.anomalies>>)} ELSE {})
